@@ -608,7 +608,7 @@ def rule_eq(ctx: Ctx):
     ne = ctx.fn("Continuum.__ne__", "R-C13-6")
     b = body_stmts(ne.node)
     okne = len(b) == 1 and isinstance(b[0], ast.Return) and norm(b[0].value) in (
-        f"not {ne.self_name} == {ne.params[1]}", f"not {ne.self_name}.__eq__({ne.params[1]})", f"not ({ne.self_name} == {ne.params[1]})")
+        f"not {ne.self_name} == {ne.params[1]}", f"not {ne.params[1]} == {ne.self_name}", f"not {ne.self_name}.__eq__({ne.params[1]})")
     ctx.check(okne, "R-C13-6", ne, b[0] if b else None, "__ne__ is the negation of __eq__", key="ne")
 
 
